@@ -215,5 +215,136 @@ def _impl(tier, seed, search):
                 break
     return L.result()
 
+def correspondence(tier, seed):
+    from .common import model_correspondence
+    return model_correspondence('smv.props.c10', tier, seed)
+
+def _corr(tier, seed):
+    """rows for the Lean models: `logic ul …` answered by the real classes, `logic pylist …` answered by a CPython list"""
+    import numpy as np
+    from spatialmath import SO2, SE3, UnitQuaternion, Twist3, SO3
+    g = inputs.rng(seed + 77)
+    MK = dict(SE3=(SE3, lambda k: SE3(float(k), 0, 0), lambda a: int(round(a[0, 3]))),
+              SO2=(SO2, lambda k: SO2(0.005 * k), lambda a: int(round(math.atan2(a[1, 0], a[0, 0]) / 0.005))),
+              Twist3=(Twist3, lambda k: Twist3([float(k), 0, 0, 0, 0, 0]), lambda a: int(round(a[0]))),
+              UnitQuaternion=(UnitQuaternion, lambda k: UnitQuaternion.Rx(0.005 * k), lambda a: int(round(2 * math.atan2(a[1], a[0]) / 0.005))))
+    def ids(cls_name, data):
+        return '-' if len(data) == 0 else ','.join(str(MK[cls_name][2](np.asarray(a, float))) for a in data)
+    def build(cname, idl):
+        cls, mk, _ = MK[cname]
+        if not idl: return cls.Empty()
+        if len(idl) == 1: return mk(idl[0])
+        return cls([mk(k) for k in idl])
+    def real_ul(cname, start, ops):
+        cls, mk, ident = MK[cname]
+        X = build(cname, start); outs = []
+        def arg(a):
+            if a == 'f': return SO3() if cname != 'SO3' else SE3()
+            if a[0] == 's': return mk(int(a[1:]))
+            return build(cname, [int(t) for t in a[1:].split(',')])
+        for op in ops:
+            t = op.split(':')
+            try:
+                if t[0] == 'get':
+                    r = X[int(t[1])]
+                    outs.append('e' + ids(cname, r.data) if type(r) is cls and len(r) == 1 else 'badtype')
+                elif t[0] == 'slice':
+                    a, b_, c = [None if x == '_' else int(x) for x in t[1:4]]
+                    r = X[slice(a, b_, c)]
+                    outs.append('l' + ids(cname, r.data) if type(r) is cls else 'badtype')
+                elif t[0] == 'iter':
+                    items = list(iter(X))
+                    outs.append('l' + ('-' if not items else ','.join(ids(cname, it.data) for it in items))
+                                if all(type(it) is cls and len(it) == 1 for it in items) else 'badtype')
+                elif t[0] == 'append': X.append(arg(t[1])); outs.append('ok')
+                elif t[0] == 'extend': X.extend(arg(t[1])); outs.append('ok')
+                elif t[0] == 'insert': X.insert(int(t[1]), arg(t[2])); outs.append('ok')
+                elif t[0] == 'pop':
+                    r = X.pop() if t[1] == '_' else X.pop(int(t[1]))
+                    outs.append('e' + ids(cname, r.data) if type(r) is cls and len(r) == 1 else 'badtype')
+                elif t[0] == 'del': del X[int(t[1])]; outs.append('ok')
+                elif t[0] == 'set': X[int(t[1])] = arg(t[2]); outs.append('ok')
+                elif t[0] == 'reverse': X.reverse(); outs.append('ok')
+                elif t[0] == 'clear': X.clear(); outs.append('ok')
+            except (IndexError, ValueError, TypeError) as e:
+                outs.append(type(e).__name__)
+            except Exception as e:
+                outs.append('exc:' + type(e).__name__)
+        return ';'.join(outs) + '|' + ids(cname, X.data)
+    def real_list(start, ops):
+        X = list(start); outs = []
+        sh = lambda l: '-' if not l else ','.join(map(str, l))
+        for op in ops:
+            t = op.split(':')
+            try:
+                if t[0] == 'get': outs.append(f'e{X[int(t[1])]}')
+                elif t[0] == 'slice':
+                    a, b_, c = [None if x == '_' else int(x) for x in t[1:4]]
+                    outs.append('l' + sh(X[slice(a, b_, c)]))
+                elif t[0] == 'iter': outs.append('l' + sh(list(iter(X))))
+                elif t[0] == 'append': X.append(int(t[1][1:])); outs.append('ok')
+                elif t[0] == 'extend': X.extend([int(v) for v in t[1][1:].split(',')]); outs.append('ok')
+                elif t[0] == 'insert': X.insert(int(t[1]), int(t[2][1:])); outs.append('ok')
+                elif t[0] == 'pop': outs.append(f'e{X.pop() if t[1] == "_" else X.pop(int(t[1]))}')
+                elif t[0] == 'del': del X[int(t[1])]; outs.append('ok')
+                elif t[0] == 'set': X[int(t[1])] = int(t[2][1:]); outs.append('ok')
+                elif t[0] == 'reverse': X.reverse(); outs.append('ok')
+                elif t[0] == 'clear': X.clear(); outs.append('ok')
+            except (IndexError, ValueError, TypeError) as e:
+                outs.append(type(e).__name__)
+        return ';'.join(outs) + '|' + sh(X)
+    counter = [100]
+    def fresh():
+        counter[0] += 1; return counter[0]
+    def rand_op(listonly):
+        k = int(g.integers(0, 14 if not listonly else 11))
+        i = int(g.integers(-6, 7))
+        o = lambda: '_' if g.random() < 0.3 else str(int(g.integers(-7, 8)))
+        if k == 0: return f'get:{i}'
+        if k == 1:
+            st = '_' if g.random() < 0.3 else str(int(g.choice([1, -1, 2, -2, 3, -3, 0 if g.random() < 0.1 else 1])))
+            return f'slice:{o()}:{o()}:{st}'
+        if k == 2: return 'iter'
+        if k == 3: return f'append:s{fresh()}'
+        if k == 4: return f'extend:m{fresh()},{fresh()}' if g.random() < 0.6 else f'extend:s{fresh()}'
+        if k == 5: return f'insert:{i}:s{fresh()}'
+        if k == 6: return 'pop:_' if g.random() < 0.4 else f'pop:{i}'
+        if k == 7: return f'del:{i}'
+        if k == 8: return f'set:{i}:s{fresh()}'
+        if k == 9: return 'reverse'
+        if k == 10: return 'clear' if g.random() < 0.3 else f'get:{i}'
+        if k == 11: return str(g.choice(['append:f', 'extend:f', f'insert:{i}:f', f'set:{i}:f']))
+        if k == 12: return str(g.choice([f'append:m{fresh()},{fresh()}', f'insert:{i}:m{fresh()},{fresh()}', f'set:{i}:m{fresh()},{fresh()}']))
+        return f'extend:m{fresh()},{fresh()},{fresh()}'
+    rows = []
+    n = 250 if tier == 'quick' else 2500
+    cnames = list(MK)
+    for k in range(n):
+        cname = cnames[k % len(cnames)]
+        counter[0] = 100
+        start = [fresh() for _ in range(int(g.integers(0, 5)))]
+        ops = [rand_op(False) for _ in range(int(g.integers(1, 25)))]
+        d = '-' if not start else ','.join(map(str, start))
+        rows.append(dict(req=f'logic ul {d} ' + ' '.join(ops), exp=real_ul(cname, start, ops), meta=dict(cls=cname)))
+        ops = [o for o in (rand_op(True) for _ in range(int(g.integers(1, 25)))) if not (o.startswith('extend:s'))]
+        if ops:
+            rows.append(dict(req=f'logic pylist {d} ' + ' '.join(ops), exp=real_list(start, ops), meta=dict(cls='list')))
+    # exhaustive single operations on lengths 0..4: every index -6..6, every slice with bounds None/-6..6 and steps
+    for cname in (cnames if tier != 'quick' else cnames[:2]):
+        for ln in range(0, 5):
+            start = list(range(1, ln + 1)); d = '-' if not start else ','.join(map(str, start))
+            single = [f'get:{i}' for i in range(-6, 7)] + [f'pop:{i}' for i in range(-6, 7)] + [f'del:{i}' for i in range(-6, 7)] + \
+                     [f'insert:{i}:s50' for i in range(-6, 7)] + [f'set:{i}:s50' for i in range(-6, 7)]
+            for op in single:
+                rows.append(dict(req=f'logic ul {d} {op}', exp=real_ul(cname, start, [op]), meta=dict(cls=cname)))
+            bounds = ['_'] + [str(i) for i in range(-6, 7)]
+            ops = [f'slice:{a}:{b_}:{c}' for a in bounds for b_ in bounds for c in ('_', '1', '-1', '2', '-2', '3', '-3', '0')]
+            for j in range(0, len(ops), 28):
+                chunk = ops[j:j + 28]
+                rows.append(dict(req=f'logic ul {d} ' + ' '.join(chunk), exp=real_ul(cname, start, chunk), meta=dict(cls=cname)))
+                if cname == cnames[0]:
+                    rows.append(dict(req=f'logic pylist {d} ' + ' '.join(chunk), exp=real_list(start, chunk), meta=dict(cls='list')))
+    return rows
+
 if __name__ == '__main__':
-    main_entry(_impl)
+    main_entry(_impl, _corr)
